@@ -125,6 +125,16 @@ def run(case, prop):
         for (kind, key), g_, w in zip(case['probes'], got, want):
             if g_ != w: viol.append('layer-order| %s key %r with type %r syntax %r, layers present (global type, global syntax, user) = %r: effective value %r, the most specific layer defining it has %r' % (kind, key, ty, sy, case['subset'], g_, w))
         if case.get('nomodel'): raise StopIteration          # null values: the resolved tables are the whole observation (expanding null snippets / variables is outside the typed fragment)
+        # the order in which the caller wrote the sections of its global configuration, and the mapping type it used, mean nothing
+        import collections as _co, types as _ty
+        gcr = _co.OrderedDict(reversed(list(copy.deepcopy(gc).items())))
+        cfgr = Config(copy.deepcopy(c), gcr)
+        for kind, key in case['probes']:
+            d1 = {'o': cfg.options, 'sn': cfg.snippets, 'vr': cfg.variables}[kind]; d2 = {'o': cfgr.options, 'sn': cfgr.snippets, 'vr': cfgr.variables}[kind]
+            if d1.get(key) != d2.get(key): viol.append('layer-order| %s key %r: %r with the global sections written in one order, %r in the other (%r)' % (kind, key, d1.get(key), d2.get(key), gc)); break
+        if not case.get('nomodel') and ty == 'markup' and gc:
+            pa, pb = expand('ul>li.a*2>img', copy.deepcopy(c), copy.deepcopy(gc)), expand('ul>li.a*2>img', copy.deepcopy(c), _ty.MappingProxyType(copy.deepcopy(gc)))
+            if pa != pb: viol.append('layer-order| expand(ul>li.a*2>img, %r, global) = %r with a dict, %r with the same global configuration as a read-only mapping' % (c, pa, pb))
         # the effective jsx.enabled is what the parser obeys (`Foo.Bar` is one component name under JSX, an element with a class otherwise)
         if ('o', 'jsx.enabled') in case['probes'] and ty == 'markup' and sy not in ('pug', 'slim', 'haml'):
             w_ = want[case['probes'].index(('o', 'jsx.enabled'))]
